@@ -749,6 +749,9 @@ func ruleResponses(c *chk.Ctx, d *dispatchModel) {
 						seen = append(seen, "literal null")
 						continue
 					}
+					if k, isC := src.(*ssa.Const); isC && k.IsNil() {
+						continue // "no such member" from an outcome helper
+					}
 					all = false
 					seen = append(seen, fmt.Sprintf("%T", src))
 					continue
@@ -784,6 +787,9 @@ func ruleResponses(c *chk.Ctx, d *dispatchModel) {
 			}
 			if al, ok := src.(*ssa.Alloc); ok && types.Unalias(al.Type().(*types.Pointer).Elem()) == types.Type(c.M.ErrorT) {
 				continue
+			}
+			if k, isC := src.(*ssa.Const); isC && k.IsNil() {
+				continue // "no error member" from an outcome helper
 			}
 			return false, fmt.Sprintf("unexpected source %T", src)
 		}
@@ -891,17 +897,96 @@ type invOutcome struct {
 	val, err ssa.Value
 	at       ssa.Instruction
 	conds    []ir.Cond
+	// for an outcome taken along one path: what each read of a result variable on that path
+	// yielded (the value last stored before it)
+	alias map[ssa.Value]ssa.Value
+}
+
+// as reports whether pred holds of v, or of what v (a read of a result variable
+// on the outcome's path) stands for.
+func (o invOutcome) as(v ssa.Value, pred func(ssa.Value) bool) bool {
+	if pred(v) {
+		return true
+	}
+	if a, ok := o.alias[v]; ok && a != nil {
+		return pred(a)
+	}
+	return false
 }
 
 func invokeOutcomes(c *chk.Ctx, d *dispatchModel) []invOutcome {
 	f := d.invoke
-	var raw []invOutcome
+	var raw, pathwise []invOutcome
 	if f.Signature.Results().Len() == 2 {
 		// (a `return h(...)` of a private helper stands for the helper's returns)
 		for _, r := range effectiveReturns(c, f, 0) {
-			if len(r.Results) == 2 {
-				raw = append(raw, invOutcome{val: ir.ReturnResult(r, 0), err: ir.ReturnResult(r, 1), at: r})
+			if len(r.Results) != 2 {
+				continue
 			}
+			if r.Parent().Recover != nil && r.Block() == r.Parent().Recover {
+				continue // the exit taken after a recovered panic yields no outcome of the handler
+			}
+			// named results returned at a shared exit: one outcome per path into it, with the
+			// values the result variables hold on that path and the branch outcomes along it
+			cellOf := func(v ssa.Value) *ssa.Alloc {
+				if u, ok := v.(*ssa.UnOp); ok && u.Op == token.MUL {
+					if al, ok := u.X.(*ssa.Alloc); ok && len(ir.CellStores(al)) > 1 {
+						return al
+					}
+				}
+				return nil
+			}
+			vc, ec := cellOf(r.Results[0]), cellOf(r.Results[1])
+			if vc != nil || ec != nil {
+				if paths, ok := ir.PathsTo(r.Parent(), r.Block(), 64); ok && len(paths) > 0 {
+					for _, path := range paths {
+						o := invOutcome{val: r.Results[0], err: r.Results[1], at: r, conds: ir.NormConds(ir.PathConds(path)), alias: map[ssa.Value]ssa.Value{}}
+						cur := map[*ssa.Alloc]ssa.Value{}
+						for pi, pb := range path {
+							for _, ins := range pb.Instrs {
+								switch x := ins.(type) {
+								case *ssa.Store:
+									if al, ok := x.Addr.(*ssa.Alloc); ok && (al == vc || al == ec) {
+										v := x.Val
+										if a, isAlias := o.alias[v]; isAlias {
+											v = a // `return val, err` writes the variables back to themselves
+										}
+										// a value chosen on the way into this block: the one of the path's edge
+										if phi, isPhi := v.(*ssa.Phi); isPhi && phi.Block() == pb && pi > 0 {
+											for k, pred := range pb.Preds {
+												if pred == path[pi-1] {
+													v = phi.Edges[k]
+												}
+											}
+										}
+										cur[al] = v
+									}
+								case *ssa.UnOp:
+									if al, ok := x.X.(*ssa.Alloc); ok && x.Op == token.MUL && (al == vc || al == ec) {
+										o.alias[x] = cur[al]
+									}
+								}
+							}
+						}
+						nilOf := func(al *ssa.Alloc) ssa.Value {
+							return ssa.NewConst(nil, al.Type().Underlying().(*types.Pointer).Elem())
+						}
+						if vc != nil {
+							if o.val = cur[vc]; o.val == nil {
+								o.val = nilOf(vc)
+							}
+						}
+						if ec != nil {
+							if o.err = cur[ec]; o.err == nil {
+								o.err = nilOf(ec)
+							}
+						}
+						pathwise = append(pathwise, o)
+					}
+					continue
+				}
+			}
+			raw = append(raw, invOutcome{val: ir.ReturnResult(r, 0), err: ir.ReturnResult(r, 1), at: r})
 		}
 	} else {
 		// stores into val/err of a task, paired per block
@@ -964,7 +1049,7 @@ func invokeOutcomes(c *chk.Ctx, d *dispatchModel) []invOutcome {
 		o.conds = ir.CondsAt(blk)
 		out = append(out, o)
 	}
-	return out
+	return append(out, pathwise...)
 }
 
 // C01-D7: a notification handler's error never becomes a response.
@@ -1066,6 +1151,12 @@ func ruleSemaphore(c *chk.Ctx, d *dispatchModel) {
 		switch x := i.(type) {
 		case *ssa.Call:
 			return isSem(x, "Release")
+		case *ssa.Defer:
+			// once executed, a deferred Release runs at the function's exit on every path
+			// (the defer statement may itself sit on the success branch)
+			if isSem(x, "Release") {
+				return true
+			}
 		case *ssa.RunDefers:
 			ok := false
 			ir.Instrs(f, func(i2 ssa.Instruction) {
